@@ -90,6 +90,7 @@ typedef struct vd_pattern {
     int use_float;           /* float32 entry point */
     int style;               /* 0 fixed 2048, 1 one streaming call, 2 random chunks, 3 tiny chunks, 4 first chunk < 1 frame, 5 huge chunks, 6 short chunk then the rest in one call */
     int no_search_chunks;    /* number of leading chunks passed with no_search=TRUE (-1 = all) */
+    double no_search_prob;   /* besides: every later chunk is passed with no_search=TRUE with this probability (searched and buffered pieces interleave) */
     double partial_prob;     /* probability of a partial-result callback after a chunk */
 } vd_pattern;
 void vd_pattern_random(vh_rng *r, vd_pattern *p, int allow_full_utt);
